@@ -82,12 +82,12 @@ def FootQ (s s' : St) : Prop :=
 
 /-- **footprint of the class SolverCompositeChild**: its queries never touch `variables` / `constraints`, and every model it
 caches is over its own variables (`_model_hook` restricts the model Z3 returns to `self.variables`; `_add` only drops
-models or records the trivial one).  NOT proved here (the per-call specifications of C11 say `variables` only grows); the
-correspondence check compares `variables`, `constraints` and the cached models of every child after every call. -/
-structure ChildFoot (E : Env) : Prop where
-  add : ∀ cs s, KeysInv s.fe → KeysInv (publicAdd (childOps E) cs true s).2.fe
-  checkSat : ∀ ex s, FootQ s (childCheckSat E ex s).2
-  eval : ∀ e n ex s, FootQ s ((childOps E).eval e n ex s).2
+models or records the trivial one).  Proved in CompositeFoot.lean (`childFoot`). -/
+structure ChildFoot (R : Con → Prop) (RE : Exp → Prop) (E : Env) : Prop where
+  add : ∀ (G : St → Prop) (U : List Con) cs s, (∀ c ∈ cs, R c) → SI R RE E G U s → KeysInv s.fe →
+    KeysInv (publicAdd (childOps E) cs true s).2.fe
+  checkSat : ∀ (G : St → Prop) (U : List Con) ex s, SI R RE E G U s → FootQ s (childCheckSat E ex s).2
+  eval : ∀ (G : St → Prop) (U : List Con) e n ex s, SI R RE E G U s → FootQ s ((childOps E).eval e n ex s).2
 
 /-- what `_solver_for_names(names)` hands back: a child `m` (one of the old ones, or a new one) holding exactly the constraints
 of the children that own one of the names -/
@@ -179,7 +179,7 @@ theorem merged_single {U : List Con} {Us : List (List Con)} {s : CSt} (h : CInv 
   · intro hnil; rw [hnil] at hj; cases hj
 
 section
-variable (H : SolverHyps R RE E) (F : ChildFoot E)
+variable (H : SolverHyps R RE E) (F : ChildFoot R RE E)
 include H F
 
 /-- `s.add(constraints)` on the (claimed) merged child `j'`, then `_store_child(j')` -/
@@ -211,7 +211,7 @@ theorem add_store {U : List Con} {Us Us2 : List (List Con)} {s : CSt} (h : CInv 
     by_cases hjj : j = j'
     · subst hjj
       rw [hself]
-      exact F.add cs (stOfI w2 j) (hkeys j hj)
+      exact F.add _ _ cs (stOfI w2 j) hcs (hkids.each j hj) (hkeys j hj)
     · rw [hoth j hjj]; exact hkeys j hj
   · -- every variable occurs in a constraint
     intro j hj
